@@ -462,6 +462,15 @@ func (h *History) removeHooks() {
 	verifhook.SetFault(nil)
 }
 
+// FailNextFsync makes the next fsync of a new TSM file fail (for epilogues).
+func (h *History) FailNextFsync() { h.failFsync = true }
+
+// FsyncFaultPending tells whether the armed fsync fault has not fired yet.
+func (h *History) FsyncFaultPending() bool { return h.failFsync }
+
+// ClearFaults disarms pending faults.
+func (h *History) ClearFaults() { h.failFinishing, h.failFsync = false, false }
+
 // Exec runs the whole history.
 func (h *History) Exec() {
 	run := h.Run
